@@ -95,7 +95,7 @@ theorem readLeaf_spec (h : Heap) (file : File) (hh : HeapWF h) (fo : FileOK h fi
       RPost h file [.leaf nm k o no u l] ρ s' ρ' := by
   obtain ⟨ho, hno, hu⟩ := fieldsOK_leaf hok
   simp only [RepF] at hrep
-  obtain ⟨ha, hsrc, hfn, hun, hlv⟩ := hrep
+  obtain ⟨ha, hsrc, hfn, hun, hlv, hsa⟩ := hrep
   have hob : h[o]? = some h[o] := List.getElem?_eq_getElem ho
   have hlen : ∀ (s' : RSt) (ρ' : Rho) (n : Nat), RInv h file ρ' s' → ρ'.lookup o = some n → objLen s'.heap n = no := by
     intro s' ρ' n inv' hn
@@ -106,8 +106,9 @@ theorem readLeaf_spec (h : Heap) (file : File) (hh : HeapWF h) (fo : FileOK h fi
     rw [hno]; simp [objLen, hob]
   cases g with
   | mk a p subs =>
-    simp only [Grp.attrs_mk] at hfn hun hlv
+    simp only [Grp.attrs_mk] at hfn hun hlv hsa
     simp only [Grp.src_mk] at hsrc
+    have hra : ∀ s : RSt, resolveAlias file fa a s = .ok s := fun s => by simp only [resolveAlias, hsa]
     cases hml : s.memo.lookup (pre ++ [nm]) with
     | some n =>
       obtain ⟨g'', h1, _, h3⟩ := inv.memo _ n hml
@@ -115,7 +116,7 @@ theorem readLeaf_spec (h : Heap) (file : File) (hh : HeapWF h) (fo : FileOK h fi
       cases h1
       simp only [Grp.src_mk, hsrc] at h3
       refine ⟨s, ρ, ?_, inv, Ext.refl ρ, ?_, fun z hz => Or.inl hz⟩
-      · simp only [readField, hfn, hml, renameField, phi_of_lookup h3, hlen s ρ n inv h3, hun, readUnit_ok u hu, hlv,
+      · simp only [readField, hra, hfn, hml, renameField, phi_of_lookup h3, hlen s ρ n inv h3, hun, readUnit_ok u hu, hlv,
           lastName_snoc]
       · intro x hx
         simp only [leafObjs, List.mem_singleton] at hx
@@ -134,7 +135,7 @@ theorem readLeaf_spec (h : Heap) (file : File) (hh : HeapWF h) (fo : FileOK h fi
         (by simp only [Grp.src_mk, hsrc]; omega) (by simp only [Grp.src_mk, hsrc]; exact hon)
       simp only [Grp.src_mk, hsrc] at hlk hnew
       refine ⟨s', ρ', ?_, inv', hext, ?_, ?_⟩
-      · simp only [readField, hfn, hml, hrd, renameField, phi_of_lookup hlk, hlen s' ρ' n inv' hlk, hun, readUnit_ok u hu,
+      · simp only [readField, hra, hfn, hml, hrd, renameField, phi_of_lookup hlk, hlen s' ρ' n inv' hlk, hun, readUnit_ok u hu,
           hlv, lastName_snoc]
       · intro x hx
         simp only [leafObjs, List.mem_singleton] at hx
